@@ -31,7 +31,7 @@ from vf.ref import chemkin_inp as CK
 from vf.ref import units as U
 
 ID = 'C06'
-N = {'quick': 1500, 'thorough': 100000}
+N = {'quick': 1000, 'thorough': 100000}
 NT_RULE = ('case = random well-formed mechanism (1-3 CatSites, 2-30 Nasa species G/S/bulk, 1-40 '
            'ChemkinReactions of kinds gas/ads/ads_plain/ads_diss/des/surf/diff, with/without TS, '
            'stoichiometry 1-3) + 1-8 condition runs + writer options (act/ads method, unit, T, P, formats, '
@@ -45,6 +45,11 @@ REQUIRED_CLASSES = (['rx:' + k for k in ('gas', 'ads', 'ads_plain', 'ads_diss', 
                        'profile:mixed', 'profile:gas', 'profile:surface', 'profile:tiny',
                        'runs:1', 'runs:8', 'dest:text', 'dest:disk', 'call:defaults',
                        'Eact:all_ts', 'Eact:missing_ts', 'clamp:zero', 'clamp:ts', 'clamp:rxn',
+                       'clamp:E_no_ts:zero', 'clamp:E_no_ts:rxn',
+                       'hist:site_density', 'hist:density', 'hist:sticking', 'hist:beta', 'hist:poly:inplace',
+                       'hist:poly:assign', 'hist:site_density:A_depends', 'hist:append_to_caller_list',
+                       'reactions_arg:list', 'reactions_arg:tuple', 'reactions_arg:generator',
+                       'x:all_zero_species', 'x:all_zero_single_run',
                        'A:stick', 'A:gas', 'A:surf', 'A:ts_entropy', 'A:multi_site',
                        'sden:min', 'sden:max', 'sden:mean', 'sden:sum', 'mw:on', 'mw:off',
                        'site_objs:shared', 'site_objs:copies', 'build:ctor', 'build:from_string',
@@ -70,9 +75,13 @@ ASSUMPTIONS = [
     'molecule); sticking coefficient for is_adsorption steps',
     'model Ea: E = H(TS)-H(reactants) (+1-del_m, del_m=1), H / G = max(0, X(TS)-X(reactants), X(products)-'
     'X(reactants)) (without TS: max(0, X(products)-X(reactants))), dimensional = * R[unit] * T, all from the '
-    'species\' own get_HoRT/get_SoR/get_GoRT at the call\'s T (and P when given); for an E method without a '
-    'transition state the model defines no value: a produced entry is not judged (telemetry), a refused '
-    'call is reported',
+    'species\' own get_HoRT/get_SoR/get_GoRT at the call\'s T (and P when given); an E method on a step '
+    'without transition state gives max(0, H(products)-H(reactants)) (+1-del_m, del_m=1)',
+    'histories: after the first round of writer calls (random order) the SAME objects are edited through their '
+    'public attributes (CatSite.site_density / density, sticking_coeff, beta, a species\' a_low/a_high in place '
+    'or by assignment), the list that was handed to Reactions gets another reaction appended by its owner, and '
+    'the files are written again: they must describe the edited model and must not contain the appended step; '
+    'Reactions is built from a list, a tuple or a one-shot generator (any iterable is accepted by the class)',
     'numbers: token must be re-producible by the requested format string and |token - model| <= half a unit '
     'of the last printed place (+ 1e-4 relative for computed quantities: CODATA-2018 constants of '
     'vf/ref/units.py vs. pMuTT\'s table; + 1e-9 for transcribed ones)',
@@ -161,8 +170,16 @@ def gen_calls(rng, mech, cond):
 def _case(rng, n_runs=None, **kw):
     mech = MG.gen_mechanism(rng, **kw)
     cond = MG.gen_conditions(rng, mech, n_runs=n_runs)
-    return {'mech': mech, 'cond': cond, 'calls': gen_calls(rng, mech, cond),
-            'site_objs': rng.choice(['shared', 'shared', 'copies'])}
+    return _finish(rng, {'mech': mech, 'cond': cond, 'calls': gen_calls(rng, mech, cond),
+                         'site_objs': rng.choice(['shared', 'shared', 'copies'])})
+
+
+def _finish(rng, spec):
+    """history part of a case: order of the first round, edits, how Reactions is fed"""
+    spec['history'] = MG.gen_history(rng, spec['mech'])
+    spec['order_seed'] = rng.randrange(10 ** 6)
+    spec['reactions_arg'] = rng.choice(['list', 'list', 'list', 'generator', 'tuple'])
+    return spec
 
 
 def generate(rng, tier):
@@ -202,12 +219,14 @@ def directed(tier):
         if len(mech['reactions']) == 40 and sum(1 for x in mech['species'] if x['role'] != 'ts') == 30:
             break
     cond = MG.gen_conditions(rng, mech, n_runs=8)
-    D.append({'mech': mech, 'cond': cond, 'calls': gen_calls(rng, mech, cond), 'site_objs': 'copies'})
+    D.append(_finish(rng, {'mech': mech, 'cond': cond, 'calls': gen_calls(rng, mech, cond), 'site_objs': 'copies'}))
     # 3: lower bounds: 2 species, 1 reaction, 1 run
     rng = random.Random('C06-d3')
     mech = MG.gen_mechanism(rng, profile='gas', ts_mode='none', n_sites=1, n_rxn=1, max_species=2)
     cond = MG.gen_conditions(rng, mech, n_runs=1)
-    D.append({'mech': mech, 'cond': cond, 'calls': gen_calls(rng, mech, cond), 'site_objs': 'shared'})
+    names = [x['name'] for x in mech['species'] if x['role'] != 'ts']
+    cond['mole_fracs'] = [{names[0]: 1.0, names[1]: 0.0}]          # listed with exactly 0 in the only run
+    D.append(_finish(rng, {'mech': mech, 'cond': cond, 'calls': gen_calls(rng, mech, cond), 'site_objs': 'shared'}))
     # 4-9: every act method as act and as ads on a mixed TS / no-TS mechanism, all three files
     for i, m in enumerate(ACT):
         rng = random.Random('C06-d4-%d' % i)
@@ -231,6 +250,27 @@ def directed(tier):
     s = _case(rng, profile='surface', ts_mode='none', n_sites=1, n_rxn=3, max_species=10)
     s['probe'] = 'swallow'
     D.append(s)
+    # 14: site-density sweep on the same objects (every edit kind, list handed to Reactions keeps growing)
+    rng = random.Random('C06-d14')
+    s = _case(rng, profile='surface', ts_mode='mixed', n_sites=2, n_rxn=10, max_species=16)
+    s['reactions_arg'] = 'list'
+    s['site_objs'] = 'shared'
+    ads = [i for i, r in enumerate(s['mech']['reactions']) if r['is_adsorption']]
+    s['history'] = [{'op': 'site_density', 'site': 0, 'value': 4.4385e-10},
+                    {'op': 'site_density', 'site': 1, 'value': 7.5e-09},
+                    {'op': 'density', 'site': 0, 'value': 7.77},
+                    {'op': 'beta', 'rx': 0, 'value': -0.75},
+                    {'op': 'poly', 'species': s['mech']['species'][0]['name'], 'dH': 2500.0, 'dS': -1.5, 'how': 'inplace'},
+                    {'op': 'poly', 'species': s['mech']['species'][1]['name'], 'dH': -1800.0, 'dS': 0.5, 'how': 'assign'}]
+    if ads:
+        s['history'].append({'op': 'sticking', 'rx': ads[0], 'value': 0.0625})
+    D.append(s)
+    # 15: Reactions fed from a one-shot generator, 16: from a tuple
+    for j, arg in enumerate(['generator', 'tuple']):
+        rng = random.Random('C06-d15-%d' % j)
+        s = _case(rng, profile='mixed', n_sites=1, n_rxn=8, max_species=14)
+        s['reactions_arg'] = arg
+        D.append(s)
     return D
 
 
@@ -340,8 +380,10 @@ class Model:
             scale += sT
         if short[0] == 'E':
             if T0 is None:
-                return None, 'undefined', scale
-            val, branch = T0 - R0, 'ts'
+                # no transition state: the barrier is the non-negative reaction enthalpy (+ 1 - del_m, del_m = 1)
+                val, branch = max((0.0, 'E_no_ts:zero'), (P0 - R0, 'E_no_ts:rxn'), key=lambda t: t[0])
+            else:
+                val, branch = T0 - R0, 'ts'
         else:
             cands = [(0.0, 'zero'), (P0 - R0, 'rxn')]
             if T0 is not None:
@@ -524,9 +566,6 @@ def _arrhenius(ctx, M, c, base, pairs, file):
         method = c['ads'] if r['is_adsorption'] else c['act']
         want, branch, scale = M.Ea(i, method, T, c['P'], c['unit'])
         mE = dict(base, rule='K3', field='Ea', act_method=method, has_ts=has_ts, ads=bool(r['is_adsorption']))
-        if want is None:
-            ctx.extra['Ea_written_for_E_method_without_TS'] = ctx.extra.get('Ea_written_for_E_method_without_TS', 0) + 1
-            continue
         ctx.cls('clamp:' + branch)
         mE['branch'] = branch
         _num(ctx, e['Ea'], want, c['ff'], mE, TOL_COMPUTED, scale=scale * 1e-9, reaction=e['expr'], T=T, P=c['P'],
@@ -585,6 +624,8 @@ def check_gas(ctx, M, c, n):
     from pmutt.io import chemkin as ck
     dest = 'disk' if c['disk'] else 'text'
     base = {'file': 'gas', 'rule': 'K1', 'dest': dest}
+    if c.get('hist'):
+        base['hist'] = c['hist']
     ctx.cls('dest:' + dest, 'gas.act:' + c['act'])
     _cls_E(ctx, M, c, True)
     if c['defaults']:
@@ -617,6 +658,8 @@ def check_surf(ctx, M, c, n):
     from pmutt.io import chemkin as ck
     dest = 'disk' if c['disk'] else 'text'
     base = {'file': 'surf', 'rule': 'K1', 'dest': dest}
+    if c.get('hist'):
+        base['hist'] = c['hist']
     ctx.cls('dest:' + dest, 'surf.act:' + c['act'], 'surf.ads:' + c['ads'], 'sden:' + c['sden'],
             'mw:on' if c['mw'] else 'mw:off')
     if c['P'] is not None:
@@ -707,6 +750,8 @@ def check_EA(ctx, M, c, n, cond):
     dest = 'disk' if c['disk'] else 'text'
     file = 'EAg' if c['gas'] else 'EAs'
     base = {'file': file, 'rule': 'K1', 'dest': dest}
+    if c.get('hist'):
+        base['hist'] = c['hist']
     ctx.cls('dest:' + dest, 'EA.act:' + c['act'], 'EA.ads:' + c['ads'])
     _cls_E(ctx, M, c, c['gas'])
     if c['defaults']:
@@ -746,9 +791,6 @@ def check_EA(ctx, M, c, n, cond):
         method = c['ads'] if r['is_adsorption'] else c['act']
         for tok, d in zip(e['values'], runs):
             want, branch, scale = M.Ea(i, method, d['T'], d['P'], c['unit'])
-            if want is None:
-                ctx.extra['Ea_written_for_E_method_without_TS'] = ctx.extra.get('Ea_written_for_E_method_without_TS', 0) + 1
-                continue
             ctx.cls('clamp:' + branch)
             _num(ctx, tok, want, c['ff'], dict(base, rule='K3', field='Ea', act_method=method, has_ts=bool(r['ts']),
                                                ads=bool(r['is_adsorption']), branch=branch), TOL_COMPUTED,
@@ -759,6 +801,8 @@ def check_tube(ctx, M, c, cond, disk):
     from pmutt.io import chemkin as ck
     dest = 'disk' if disk else 'text'
     base = {'file': 'tube_mole', 'rule': 'K1', 'dest': dest}
+    if c.get('hist'):
+        base['hist'] = c['hist']
     ctx.cls('dest:' + dest)
     fracs = cond['mole_fracs']
     kw = dict(mole_frac_conditions=[dict(d) for d in fracs], nasa_species=M.objs['nasa_species'],
@@ -781,6 +825,12 @@ def check_tube(ctx, M, c, cond, disk):
               header=t['run_header'], runs=len(fracs))
     ctx.check('K2', t['eof'], dict(b2, field='EOF'))
     _multiset(ctx, dict(base, field='species'), [e['name'] for e in t['entries']], names)
+    for nm in names:
+        vals = [d[nm] for d in fracs if nm in d]
+        if vals and all(v == 0.0 for v in vals):
+            ctx.cls('x:all_zero_species')
+            if len(fracs) == 1:
+                ctx.cls('x:all_zero_single_run')
     for e in t['entries']:
         sp = M.sp.get(e['name'])
         if sp is None:
@@ -799,6 +849,8 @@ def check_tflow(ctx, M, c, cond, disk):
     from pmutt.io import chemkin as ck
     dest = 'disk' if disk else 'text'
     base = {'file': 'T_flow', 'rule': 'K1', 'dest': dest}
+    if c.get('hist'):
+        base['hist'] = c['hist']
     ctx.cls('dest:' + dest)
     kw = dict(T=list(cond['T']), P=list(cond['P']), Q=list(cond['Q']), abyv=list(cond['abyv']),
               float_format=c['ff'], newline=c['newline'], column_delimiter=c['cd'])
@@ -923,7 +975,9 @@ def _probe_tflow_conditions(ctx, cond):
 # ======================================================================== driver
 def run_case(spec, ctx):
     mech, cond, calls = spec['mech'], spec['cond'], spec['calls']
-    objs = MG.build_mechanism(mech, site_objs=spec.get('site_objs', 'shared'))
+    rarg = spec.get('reactions_arg', 'list')
+    objs = MG.build_mechanism(mech, site_objs=spec.get('site_objs', 'shared'), reactions_arg=rarg)
+    ctx.cls('reactions_arg:' + rarg)
     M = Model(spec, objs)
     # pMuTT's own partition attribute against the model (K1 at object level)
     for i, r in enumerate(objs['reactions']):
@@ -948,20 +1002,60 @@ def run_case(spec, ctx):
         _probe_swallow(spec, ctx, M)
         _probe_tflow_conditions(ctx, cond)
 
-    for n, c in enumerate(calls['gas']):
-        path = check_gas(ctx, M, c, n)
-        if path:
-            with open(path) as f:
-                g = CK.parse_gas(f.read())
-            check_K4(ctx, M, path, 'gas', g['reactions'])
-    for n, c in enumerate(calls['surf']):
-        path = check_surf(ctx, M, c, n)
-        if path:
-            with open(path) as f:
-                s = CK.parse_surf(f.read())
-            check_K4(ctx, M, path, 'surf', s['reactions'])
-    for n, c in enumerate(calls['EA']):
-        check_EA(ctx, M, c, n, cond)
-    for disk in (False, True):
-        check_tube(ctx, M, calls['tube'], cond, disk)
-        check_tflow(ctx, M, calls['tflow'], cond, disk)
+    def do(task, M, tag=None):
+        kind, n = task
+        if kind in ('gas', 'surf', 'EA'):
+            c = calls[kind][n]
+            if tag:
+                c = dict(c, disk=False, hist=tag)
+        if kind == 'gas':
+            path = check_gas(ctx, M, c, n)
+            if path:
+                with open(path) as f:
+                    g = CK.parse_gas(f.read())
+                check_K4(ctx, M, path, 'gas', g['reactions'])
+        elif kind == 'surf':
+            path = check_surf(ctx, M, c, n)
+            if path:
+                with open(path) as f:
+                    s = CK.parse_surf(f.read())
+                check_K4(ctx, M, path, 'surf', s['reactions'])
+        elif kind == 'EA':
+            check_EA(ctx, M, c, n, cond)
+        elif kind == 'tube':
+            check_tube(ctx, M, dict(calls['tube'], hist=tag) if tag else calls['tube'], cond, bool(n))
+        else:
+            check_tflow(ctx, M, dict(calls['tflow'], hist=tag) if tag else calls['tflow'], cond, bool(n))
+
+    # round 1: every writer, in random order, on the freshly built objects
+    tasks = ([('gas', n) for n in range(len(calls['gas']))] + [('surf', n) for n in range(len(calls['surf']))]
+             + [('EA', n) for n in range(len(calls['EA']))] + [('tube', 0), ('tube', 1), ('tflow', 0), ('tflow', 1)])
+    order = random.Random(spec.get('order_seed', 0))
+    order.shuffle(tasks)
+    for t in tasks:
+        do(t, M)
+    if 'history' not in spec:
+        return
+    # the owner of the list goes on using it; the model is edited through public attributes
+    if rarg == 'list' and objs['caller_list']:
+        objs['caller_list'].append(objs['caller_list'][0])
+        ctx.cls('hist:append_to_caller_list')
+    ops = spec['history']
+    for op in ops:
+        ctx.cls('hist:' + op['op'] + (':' + op['how'] if op['op'] == 'poly' else ''))
+    MG.apply_history_to_objects(mech, objs, ops)
+    mech2 = MG.apply_history_to_spec(mech, ops)
+    M2 = Model({'mech': mech2}, objs)
+    for op in ops:
+        if op['op'] == 'site_density' and any(
+                not M2.is_gas[i] and not r['is_adsorption'] and
+                sum(nu for n, nu in r['reactants'] if M2.sp[n]['role'] in ('ads', 'vacant') and M2.sp[n]['site'] == op['site']) >= 1
+                and sum(nu for n, nu in r['reactants'] if M2.sp[n]['role'] in ('ads', 'vacant')) >= 2
+                for i, r in enumerate(M2.rx)):
+            ctx.cls('hist:site_density:A_depends')
+    # round 2: the same objects again, other order; every file describes the edited model
+    again = [('surf', 0), ('surf', 1), ('gas', 1), ('EA', 2), ('EA', 3), ('tube', 0)]
+    again = [t for t in again if t[0] in ('tube',) or t[1] < len(calls[t[0]])]
+    order.shuffle(again)
+    for t in again:
+        do(t, M2, tag='rewrite_after_edit')
